@@ -18,6 +18,7 @@ func init() {
 			g14VisitContinues(c.Repo, c.Rep)
 			g16Load(c.Repo, c.Rep)
 			g12HasUndefined(c)
+			g20AliasInjective(c)
 			c.Rep.floor("G11", 6)
 			c.Rep.floor("G1", 350)
 			runR_C01(c)
@@ -140,6 +141,7 @@ func init() {
 			g12HasUndefined(c)
 			g14NilPkg(c.Repo, c.Rep)
 			g16VisitAssertion(c.Repo, c.Rep)
+			g20AliasInjective(c)
 			runG15(c.Repo, c.Rep)
 			runG9(c, "equal.canEqual", "deepcopy.canCopy", "contains.canEqual", "derive.IsComparable")
 			runR_C09(c)
